@@ -268,6 +268,36 @@ theorem state_cfi_frames_follow_c06_nonx86 (d : Dump) (ts : List Thread) (s : St
   | true => exact state_cfi_frames_follow_c06 d ts s hth h hn hregs i h1 h2 r hr j hj hcfi
   | false => exact state_cfi_frames_follow_c06W d ts s hth h hn hx86 hregs i h1 h2 r hr j hj hcfi
 
+/-- **state_cfi_frames_x86W** — the remaining branch: an x86 dump whose symbol files carry STACK WIN
+    records. There a frame of trust `cfi` is NOT in general a STACK CFI frame: `get_caller_by_cfi`
+    is `SymbolFile::walk_frame`, which evaluates the STACK WIN record of the lookup address first
+    (C07). What holds, for every such frame of every call stack (`CfiBridge.CfiFrameX86`): the
+    callee's `esp` is valid, a loaded module with a symbol file covers its lookup address, and the
+    frame's context is EITHER the successful result of C07's `Win.winResult` on the callee's walker
+    (the function `MdProofs.C07` / `MdProofs.C04Win` are about) OR — no STACK WIN record evaluated —
+    STACK CFI evaluation (`Walk.walkFrameCfi`, C06's evaluator by `walkFrame_eq_c06`) on that walker;
+    plus the epilogue (`ip ≥ 4096`, lookup address `ip − 1`, stack pointer strictly increasing).
+    No hypothesis on the registers is needed. -/
+theorem state_cfi_frames_x86W (d : Dump) (ts : List Thread) (s : State)
+    (hth : d.threads = some ts) (h : index d = .state s)
+    (hn : Walk.noWins (winsOf d) = false) (hx86 : (unwinderOf d.arch).getD .x86 = .x86)
+    (i : Nat) (h1 : i < ts.length) (h2 : i < s.stacks.length)
+    (r : Regs) (hr : startCtx d ts[i] = some r)
+    (j : Nat) (hj : j + 1 < s.stacks[i].frames.length)
+    (hcfi : s.stacks[i].frames[j + 1].f.trust = .cfi) :
+    CfiBridge.CfiFrameX86 (worldOf d) (winsOf d)
+      ((walkMem d (selectMem (memoryList d) ts[i] (some r.sp))).getD { base := 0, bytes := #[] })
+      s.stacks[i].frames[j].f s.stacks[i].frames[j + 1].f := by
+  have hw := stacks_are_walks d ts s hth h i h1 h2
+  rw [hr] at hw
+  simp only at hw
+  rw [(env_spec d _).2.2.2.1 hn, hx86] at hw
+  obtain ⟨hj0, e0⟩ := getElem_of_map_eq hw j (by omega)
+  obtain ⟨hj1, e1⟩ := getElem_of_map_eq hw (j + 1) hj
+  have := CfiBridge.walk_cfi_frames_x86W _ _ _ _ _ _ j hj1 (by rw [e1]; exact hcfi)
+  rw [e0, e1] at this
+  exact this
+
 /-! ## 3. C05's invariant and C03's frame bound, side by side -/
 
 /-- **state_stacks_wf_bound** — `stacks_wf` and `stacks_frame_bound` restated together: every call
